@@ -302,9 +302,11 @@ class ResourceMap:
         nested resource maps are not ideal.
         """
         # Set valid identifiers as slots
+        # (names starting with a double underscore would be mangled
+        # as slots, hence they are stored in the instance dictionary)
         slots_resources = tuple(filter(
-            lambda x: x.isidentifier(), chain(self.handles.keys(),
-                                              self.maps.keys())))
+            lambda x: x.isidentifier() and not x.startswith('__'),
+            chain(self.handles.keys(), self.maps.keys())))
 
         # Don't add a dict if all the resources can be encoded into
         # slots
